@@ -110,4 +110,11 @@ CHECKS.update({
             "note": "Not decided: regex syntax outside the subset, pow/log of doubles (AnyOut), case mapping outside the listed alphabet, explicit null arguments (known finding).",
             "technique": TV},
 })
+CHECKS.update({
+    "C16": {"text": "Ten calendar accessors on boundary instants (years -1..10000, leap days, year ends, every weekday, representable min/max) and random instants - without zone, with 'UTC' and with 18 IANA zones whose offset at that instant is an input taken from the system "
+                    "time-zone database (DST transitions +-1 s), invalid zones must fail - are validated by TLC against Time.tla (days-from-civil arithmetic, documented bases); duration accessors; (t+d)-d, (t1-t2)+t2, d1+d2-d2, chronological order and range errors decided exactly on nanosecond Bigs; "
+                    "timestamp()/duration() constructors incl. an RFC 3339 reader; uomConvert for every pair of 20 units against exact rational definitions (1e-6), the inverse law (1e-9), temperature fixed points, unknown/incompatible units.",
+            "note": "Trusted input: python3 zoneinfo offsets for 1985-2026 (zone WET excluded); the unit definitions in Time.tla. duration(string) formats are not decided.",
+            "technique": TV},
+})
 NOT_YET = {}
